@@ -25,8 +25,9 @@ DESCRIPTIONS = ['Represent something "quoted".', 'Represent a text that ends wit
                 "Contains %s {braces} ${dollar}.", "Contains a hash #: here."]
 
 
-def build_model() -> str:
+def build_model(descriptions: Any = None) -> str:
     lines: List[str] = []
+    DESCRIPTIONS = descriptions if descriptions is not None else globals()["DESCRIPTIONS"]
     for k, v in enumerate(VALUES):
         lines.append(f"class Enum_{k}(Enum):")
         lines.append(f"    {DESCRIPTIONS[k % len(DESCRIPTIONS)]!r}")
